@@ -57,7 +57,8 @@ def gen_cases(rng, tier):
         m = _lattice(rng, GROUPS[sg])
         site = [rng.choice([0, 1, 2, 3, 6, 8, 12, 21, 22, 23]) if rng.random() < 0.6 else rng.randint(0, 23) for _ in range(3)]
         sc = rng.choice([[1, 1, 1], [1, 1, 1], [2, 1, 1], [1, 2, 2], [2, 2, 2], [3, 1, 1]])
-        cases.append({'sg': sg, 'm': m, 'site24': site, 'supercell': sc, 'rfrac': rng.choice([0.3, 0.6, 0.95]), 'pseed': rng.randrange(10**6), 'npos': rng.randint(6, 20)})
+        cases.append({'sg': sg, 'm': m, 'site24': site, 'supercell': sc, 'rfrac': rng.choice([0.3, 0.6, 0.95]), 'pseed': rng.randrange(10**6), 'npos': rng.randint(6, 20),
+                      'site_lat': rng.choice(['same', 'same', 'params', 'scaled'])})
     return cases
 
 
@@ -110,7 +111,11 @@ def impl(case):
     from pymatgen.core import PeriodicSite
     sg, ops = _ops(case)
     lat = synth.make_lattice(case['m'])
-    site = PeriodicSite('Li', [c / 24 for c in case['site24']], lat, label='s')
+    # the site may carry its own lattice object (the same cell in another Cartesian setting, or a slightly different reference cell):
+    # only its fractional coordinates matter, all geometry is that of the analyzer's lattice
+    from pymatgen.core import Lattice
+    slat = {'same': lat, 'params': Lattice.from_parameters(*lat.parameters), 'scaled': Lattice(np.array(lat.matrix) * 1.03)}[case.get('site_lat', 'same')]
+    site = PeriodicSite('Li', [c / 24 for c in case['site24']], slat, label='s')
     an = ShapeAnalyzer(sites=[site], lattice=lat, spacegroup=sg)
     pos1024 = _positions(case, ops)
     r = _radius(case)
